@@ -241,6 +241,17 @@ Proof.
   intros d n i f o W H ->. eapply ow_nocur; eauto. apply in_created_names; exists o; eapply nth_error_In; eauto.
 Qed.
 
+Lemma nth_snoc_inv : forall {A} (l : list A) x i y, nth_error (l ++ [x]) i = Some y ->
+  nth_error l i = Some y \/ (i = length l /\ x = y).
+Proof.
+  intros A l x i y H. destruct (Nat.lt_ge_cases i (length l)) as [Hlt|Hge].
+  - left. rewrite nth_error_app1 in H by exact Hlt. exact H.
+  - right. rewrite nth_error_app2 in H by exact Hge.
+    destruct (i - length l)%nat as [|j] eqn:Ej; cbn in H.
+    + injection H as ->. split; [lia|reflexivity].
+    + destruct j; discriminate.
+Qed.
+
 (* ---- effect of a step on the disk, by cases *)
 Lemma created_at_snoc_old : forall d d' op i f o, d_ops d' = d_ops d ++ [op] ->
   created_at d i f o -> created_at d' i f o.
@@ -257,3 +268,325 @@ Proof.
     + injection H as ->. split; [lia|reflexivity].
     + destruct j; discriminate.
 Qed.
+
+Lemma NoDup_snoc : forall {A} (l : list A) x, NoDup l -> ~ In x l -> NoDup (l ++ [x]).
+Proof.
+  intros A l x ND Hn; induction ND as [|y r Hy ND IH]; cbn [app].
+  - constructor; [intros []|constructor].
+  - constructor.
+    + intro Hin. apply in_app_or in Hin. destruct Hin as [Hin|[->|[]]]; [contradiction|].
+      apply Hn; left; reflexivity.
+    + apply IH. intro Hin; apply Hn; right; exact Hin.
+Qed.
+
+Lemma in_log_nums : forall names n, In n (flat_map log_num names) <-> In (FLog n) names.
+Proof.
+  intros names n; rewrite in_flat_map; split.
+  - intros [f [Hin Hn]]. destruct f; cbn in Hn; try contradiction. destruct Hn as [->|[]]; exact Hin.
+  - intro H; exists (FLog n); split; [exact H|left; reflexivity].
+Qed.
+
+Lemma in_logs_created : forall p n, Inv_struct p -> In n (map fst (p_logs p)) ->
+  exists i o, created_at (p_disk p) i (FLog n) o.
+Proof.
+  intros p n I H. rewrite (is_logs_names _ I) in H. apply in_log_nums in H.
+  apply in_created_names in H. destruct H as [o H]. apply In_nth_error in H. destruct H as [i H].
+  exists i, o; exact H.
+Qed.
+
+Lemma typed_new : forall f, f <> FCurrent -> typed f (mkObj [] 0).
+Proof.
+  intros f Hf; destruct f; cbn [typed o_recs]; auto.
+  - exists []; reflexivity.
+  - exists []; split; [reflexivity|constructor].
+Qed.
+
+(* ---- ECreate *)
+Lemma struct_create : forall p f, Inv_struct p ->
+  chk_R0 p (ECreate f) = true -> chk_R6 p (ECreate f) = true -> Inv_struct (pstep p (ECreate f)).
+Proof.
+  intros p f I H0 H6.
+  cbn [chk_R0] in H0. apply negb_true_iff, fname_eqb_neq in H0.
+  cbn [chk_R6] in H6. apply andb_true_iff in H6. destruct H6 as [Hfresh Hlog].
+  apply negb_true_iff in Hfresh.
+  assert (Hnew : ~ In f (created_names (d_ops (p_disk p)))).
+  { intro Hin. apply (is_created _ I) in Hin.
+    assert (existsb (fname_eqb f) (p_created p) = true).
+    { apply existsb_exists; exists f; split; [exact Hin|apply fname_eqb_refl]. }
+    congruence. }
+  pose proof (is_ops _ I) as W.
+  set (d := p_disk p) in *.
+  assert (Ed : p_disk (pstep p (ECreate f)) =
+               mkDisk (d_objs d ++ [mkObj [] 0]) (d_ops d ++ [DCreate f (length (d_objs d))]) (d_dsync d)).
+  { rewrite pstep_disk; reflexivity. }
+  assert (W' : ops_wf (d_ops d ++ [DCreate f (length (d_objs d))]) (length (d_objs d ++ [mkObj [] 0]))).
+  { constructor.
+    - rewrite create_ids_snoc, (ow_ids _ _ W), app_length. cbn [length].
+      replace (length (d_objs d) + 1)%nat with (S (length (d_objs d))) by lia.
+      rewrite seq_S; reflexivity.
+    - rewrite created_names_snoc. apply NoDup_snoc; [apply (ow_nodup _ _ W)|exact Hnew].
+    - rewrite created_names_snoc. intro Hin. apply in_app_or in Hin. destruct Hin as [Hin|[Hin|[]]].
+      + apply (ow_nocur _ _ W); exact Hin.
+      + congruence.
+    - intros a b Hin. apply in_app_or in Hin. destruct Hin as [Hin|[Hin|[]]]; [|discriminate].
+      apply (ow_ren _ _ W); exact Hin.
+    - intro Hin. apply in_app_or in Hin. destruct Hin as [Hin|[Hin|[]]]; [|discriminate].
+      apply (ow_unl _ _ W); exact Hin. }
+  constructor; rewrite ?Ed; cbn [d_ops d_objs d_dsync].
+  - exact W'.
+  - rewrite app_length; cbn [length]. pose proof (is_dsync _ I). fold d in H. lia.
+  - intro g. rewrite pstep_created, created_names_snoc. cbn [In]. rewrite in_app_iff. cbn [In].
+    rewrite (is_created _ I g). fold d. intuition congruence.
+  - intros i g o x Hc Hx.
+    destruct (nth_snoc_inv _ _ _ _ Hc) as [Hold|[-> Hnew']].
+    + pose proof (created_at_lt _ _ _ _ _ W Hold) as Hlt.
+      rewrite nth_error_app1 in Hx by exact Hlt.
+      exact (is_typed _ I _ _ _ _ Hold Hx).
+    + injection Hnew' as Ef Eo. subst g o. rewrite nth_error_snoc_new in Hx. injection Hx as <-.
+      split; [apply typed_new; exact H0|]. cbn [o_synced o_recs length]. split; lia.
+  - rewrite pstep_logs, created_names_snoc, flat_map_app. cbn [flat_map]. rewrite app_nil_r.
+    destruct f; cbn [log_num]; rewrite ?app_nil_r; try exact (is_logs_names _ I).
+    rewrite map_app. cbn [map fst]. f_equal. exact (is_logs_names _ I).
+  - rewrite pstep_logs. destruct f; try exact (is_logs_sorted _ I).
+    rewrite map_app. cbn [map fst]. apply sorted0_snoc; [exact (is_logs_sorted _ I)|].
+    rewrite <- (newest_log_spec _ (is_logs_sorted _ I)). apply N.ltb_lt; exact Hlog.
+  - intros n bs i o x Hin Hc Hx. rewrite pstep_logs in Hin.
+    assert (Hold : In (n, bs) (p_logs p) -> batches_of (o_recs x) = Some bs).
+    { intro Hin'. destruct (nth_snoc_inv _ _ _ _ Hc) as [Hold|[-> Hnew']].
+      - pose proof (created_at_lt _ _ _ _ _ W Hold) as Hlt.
+        rewrite nth_error_app1 in Hx by exact Hlt.
+        exact (is_logs_recs _ I _ _ _ _ _ Hin' Hold Hx).
+      - injection Hnew' as Ef _. subst f. exfalso; apply Hnew.
+        assert (In n (map fst (p_logs p))) by (apply in_map_iff; exists (n, bs); auto).
+        rewrite (is_logs_names _ I) in H. apply in_log_nums in H. exact H. }
+    destruct f; try (apply Hold; exact Hin).
+    apply in_app_or in Hin. destruct Hin as [Hin|[Hin|[]]]; [apply Hold; exact Hin|].
+    injection Hin as <- <-.
+    destruct (nth_snoc_inv _ _ _ _ Hc) as [Hold'|[-> Hnew']].
+    + exfalso; apply Hnew. apply in_created_names; exists o. eapply nth_error_In; exact Hold'.
+    + injection Hnew' as Eo. subst o. rewrite nth_error_snoc_new in Hx. injection Hx as <-. reflexivity.
+Qed.
+
+(* ---- steps that only add a non-create directory operation *)
+Lemma struct_dirop : forall p p' op, Inv_struct p ->
+  p_disk p' = mkDisk (d_objs (p_disk p)) (d_ops (p_disk p) ++ [op]) (d_dsync (p_disk p)) ->
+  p_logs p' = p_logs p -> p_created p' = p_created p ->
+  (match op with
+   | DCreate _ _ => False
+   | DRename a b => (exists t, a = FTmp t) /\ b = FCurrent
+   | DUnlink f => f <> FCurrent
+   end) ->
+  Inv_struct p'.
+Proof.
+  intros p p' op I Ed El Ec Hop. pose proof (is_ops _ I) as W.
+  assert (Hcn : created_names (d_ops (p_disk p) ++ [op]) = created_names (d_ops (p_disk p))).
+  { rewrite created_names_snoc. destruct op; [contradiction| |]; apply app_nil_r. }
+  constructor; rewrite ?Ed, ?El, ?Ec; cbn [d_ops d_objs d_dsync]; rewrite ?Hcn.
+  - constructor.
+    + rewrite create_ids_snoc. destruct op; [contradiction| |]; rewrite app_nil_r; apply (ow_ids _ _ W).
+    + rewrite Hcn; apply (ow_nodup _ _ W).
+    + rewrite Hcn; apply (ow_nocur _ _ W).
+    + intros a b Hin. apply in_app_or in Hin. destruct Hin as [Hin|[Hin|[]]]; [apply (ow_ren _ _ W); exact Hin|].
+      subst op. exact Hop.
+    + intro Hin. apply in_app_or in Hin. destruct Hin as [Hin|[Hin|[]]]; [apply (ow_unl _ _ W); exact Hin|].
+      subst op. congruence.
+  - rewrite app_length; cbn [length]. pose proof (is_dsync _ I); lia.
+  - exact (is_created _ I).
+  - intros i f o x Hc Hx. destruct (nth_snoc_inv _ _ _ _ Hc) as [Hold|[-> Hnew]].
+    + exact (is_typed _ I _ _ _ _ Hold Hx).
+    + subst op; contradiction.
+  - exact (is_logs_names _ I).
+  - exact (is_logs_sorted _ I).
+  - intros n bs i o x Hin Hc Hx. destruct (nth_snoc_inv _ _ _ _ Hc) as [Hold|[-> Hnew]].
+    + exact (is_logs_recs _ I _ _ _ _ _ Hin Hold Hx).
+    + subst op; contradiction.
+Qed.
+
+(* ---- steps that leave the disk alone, or only move the sync mark *)
+Lemma struct_same : forall p p' ds, Inv_struct p ->
+  p_disk p' = mkDisk (d_objs (p_disk p)) (d_ops (p_disk p)) ds ->
+  (d_dsync (p_disk p) <= ds <= length (d_ops (p_disk p)))%nat ->
+  p_logs p' = p_logs p -> p_created p' = p_created p -> Inv_struct p'.
+Proof.
+  intros p p' ds I Ed Hds El Ec.
+  constructor; rewrite ?Ed, ?El, ?Ec; cbn [d_ops d_objs d_dsync].
+  - exact (is_ops _ I).
+  - lia.
+  - exact (is_created _ I).
+  - intros i f o x Hc Hx. destruct (is_typed _ I _ _ _ _ Hc Hx) as [T [S1 S2]].
+    split; [exact T|split; [exact S1|]]. intro H0; specialize (S2 H0); lia.
+  - exact (is_logs_names _ I).
+  - exact (is_logs_sorted _ I).
+  - exact (is_logs_recs _ I).
+Qed.
+
+(* ---- steps that update one object *)
+Lemma struct_upd : forall p p' o g ds f i0 x0, Inv_struct p ->
+  p_disk p' = mkDisk (upd_nth (d_objs (p_disk p)) o g) (d_ops (p_disk p)) ds ->
+  (d_dsync (p_disk p) <= ds <= length (d_ops (p_disk p)))%nat ->
+  p_created p' = p_created p -> map fst (p_logs p') = map fst (p_logs p) ->
+  created_at (p_disk p) i0 f o -> nth_error (d_objs (p_disk p)) o = Some x0 ->
+  (typed f (g x0) /\ (o_synced (g x0) <= length (o_recs (g x0)))%nat /\ ((0 < o_synced (g x0))%nat -> (i0 < ds)%nat)) ->
+  (forall n bs, In (n, bs) (p_logs p') ->
+     (f <> FLog n /\ In (n, bs) (p_logs p)) \/ (f = FLog n /\ batches_of (o_recs (g x0)) = Some bs)) ->
+  Inv_struct p'.
+Proof.
+  intros p p' o g ds f i0 x0 I Ed Hds Ec El Hc0 Hx0 Hg Hlogs. pose proof (is_ops _ I) as W.
+  constructor; rewrite ?Ed, ?Ec, ?El; cbn [d_ops d_objs d_dsync].
+  - rewrite length_upd_nth; exact W.
+  - lia.
+  - exact (is_created _ I).
+  - intros i f' o' x Hc Hx. change (created_at (p_disk p) i f' o') in Hc.
+    destruct (Nat.eq_dec o o') as [<-|Hne].
+    + destruct (created_unique _ _ _ _ _ _ _ W Hc Hc0) as [-> ->].
+      rewrite (nth_error_upd_nth_eq _ _ _ _ Hx0) in Hx. injection Hx as <-. exact Hg.
+    + rewrite nth_error_upd_nth_neq in Hx by exact Hne.
+      destruct (is_typed _ I _ _ _ _ Hc Hx) as [T [S1 S2]].
+      split; [exact T|split; [exact S1|]]. intro H0; specialize (S2 H0); lia.
+  - exact (is_logs_names _ I).
+  - exact (is_logs_sorted _ I).
+  - intros n bs i o' x Hin Hc Hx. change (created_at (p_disk p) i (FLog n) o') in Hc.
+    destruct (Hlogs _ _ Hin) as [[Hf Hin']|[Hf Hb]].
+    + assert (o <> o').
+      { intros <-. destruct (created_unique _ _ _ _ _ _ _ W Hc Hc0) as [E _]. congruence. }
+      rewrite nth_error_upd_nth_neq in Hx by exact H.
+      exact (is_logs_recs _ I _ _ _ _ _ Hin' Hc Hx).
+    + subst f.
+      assert (i = i0) by (eapply create_unique_pos; [apply (ow_nodup _ _ W)|exact Hc|exact Hc0]). subst i.
+      assert (o' = o).
+      { unfold created_at in Hc, Hc0. rewrite Hc in Hc0. injection Hc0 as ->. reflexivity. }
+      subst o'. rewrite (nth_error_upd_nth_eq _ _ _ _ Hx0) in Hx. injection Hx as <-. exact Hb.
+Qed.
+
+Lemma disk_eta : forall d, d = mkDisk (d_objs d) (d_ops d) (d_dsync d).
+Proof. intro d; destruct d; reflexivity. Qed.
+
+Lemma lookup_created : forall p f o, Inv_struct p -> ns_lookup (p_disk p) f = Some o ->
+  exists i g x, created_at (p_disk p) i g o /\ nth_error (d_objs (p_disk p)) o = Some x /\
+    (f <> FCurrent -> g = f) /\ (f = FCurrent -> exists t, g = FTmp t).
+Proof.
+  intros p f o I H. pose proof (is_ops _ I) as W. rewrite ns_lookup_nsk in H.
+  destruct (nsk_created _ _ _ _ _ W H) as [N1 N2].
+  destruct (fname_eq_dec f FCurrent) as [->|Hf].
+  - destruct (N2 eq_refl) as [i [t [_ Hc]]].
+    pose proof (created_at_lt _ _ _ _ _ W Hc) as Hlt.
+    destruct (nth_error (d_objs (p_disk p)) o) as [x|] eqn:Ex; [|apply nth_error_None in Ex; lia].
+    exists i, (FTmp t), x. repeat split; eauto; congruence.
+  - destruct (N1 Hf) as [i [_ Hc]].
+    pose proof (created_at_lt _ _ _ _ _ W Hc) as Hlt.
+    destruct (nth_error (d_objs (p_disk p)) o) as [x|] eqn:Ex; [|apply nth_error_None in Ex; lia].
+    exists i, f, x. repeat split; eauto; congruence.
+Qed.
+
+Lemma obj_at_some : forall d f x, obj_at d f = Some x ->
+  exists o, ns_lookup d f = Some o /\ nth_error (d_objs d) o = Some x.
+Proof. intros d f x H; unfold obj_at in H. destruct (ns_lookup d f) as [o|]; [eauto|discriminate]. Qed.
+
+Lemma in_logs_of_created : forall p i n o, Inv_struct p -> created_at (p_disk p) i (FLog n) o ->
+  In n (map fst (p_logs p)).
+Proof.
+  intros p i n o I Hc. rewrite (is_logs_names _ I). apply in_log_nums. apply in_created_names.
+  exists o; eapply nth_error_In; exact Hc.
+Qed.
+
+Lemma struct_step : forall p e, Inv_struct p -> chk_all p e = true -> Inv_struct (pstep p e).
+Proof.
+  intros p e I Hchk. apply chk_all_iff in Hchk.
+  destruct Hchk as [H0 [_ [_ [_ [_ [_ [H6 _]]]]]]].
+  pose proof (is_ops _ I) as W.
+  destruct e as [f|f pl| | |a b|f|id b sy|id ok].
+  - apply struct_create; assumption.
+  - (* append *)
+    cbn [chk_R0] in H0. destruct (obj_at (p_disk p) f) as [x|] eqn:Ex; [|discriminate].
+    destruct (obj_at_some _ _ _ Ex) as [o [Hl Hx]].
+    destruct (lookup_created _ _ _ I Hl) as [i [g [x' [Hc [Hx' [Hg1 Hg2]]]]]].
+    rewrite Hx in Hx'; injection Hx' as <-.
+    assert (Hf : f <> FCurrent) by (intros ->; discriminate).
+    specialize (Hg1 Hf); subst g.
+    destruct (is_typed _ I _ _ _ _ Hc Hx) as [T [S1 S2]].
+    apply (struct_upd p _ o (obj_append pl) (d_dsync (p_disk p)) f i x I).
+    + rewrite pstep_disk. cbn [fs_step]. rewrite Hl. reflexivity.
+    + pose proof (is_dsync _ I); lia.
+    + rewrite pstep_created; reflexivity.
+    + rewrite pstep_logs. destruct f; try reflexivity. destruct pl; try reflexivity. apply add_batch_fst.
+    + exact Hc.
+    + exact Hx.
+    + unfold obj_append; cbn [o_recs o_synced]. rewrite app_length; cbn [length]. split; [|split; [lia|exact S2]].
+      destruct f, pl; try discriminate; cbn [typed o_recs] in T |- *.
+      * destruct T as [bs Hb]. exists (bs ++ [(first_seq, ops)]). rewrite batches_of_app, Hb. reflexivity.
+      * destruct (o_recs x); [|discriminate]. right; exists ents; reflexivity.
+      * destruct T as [eds [He Hp]]. exists (eds ++ [e]). rewrite edits_of_app, He. split; [reflexivity|].
+        apply Forall_app; split; [exact Hp|]. constructor; [|constructor].
+        unfold prev_ok. destruct (me_prev e) as [v|]; [|left; reflexivity].
+        apply N.eqb_eq in H0; subst v; right; reflexivity.
+      * destruct (o_recs x); [|discriminate]. right; exists m; reflexivity.
+    + intros n bs Hin. rewrite pstep_logs in Hin.
+      assert (ND : NoDup (map fst (p_logs p))) by (apply sorted0_nodup; exact (is_logs_sorted _ I)).
+      destruct f as [m|m|m| |m]; try (left; split; [discriminate|exact Hin]).
+      destruct pl as [s ops|ed|ents|cm]; try discriminate.
+      apply (in_add_batch m (s, ops) (p_logs p) n bs ND) in Hin.
+      destruct Hin as [[Hne Hin]|[-> [bs0 [Hin ->]]]].
+      * left; split; [congruence|exact Hin].
+      * right; split; [reflexivity|]. unfold obj_append; cbn [o_recs].
+        rewrite batches_of_app, (is_logs_recs _ I _ _ _ _ _ Hin Hc Hx). reflexivity.
+  - (* fsync *)
+    destruct (ns_lookup (p_disk p) f) as [o|] eqn:Hl.
+    + destruct (lookup_created _ _ _ I Hl) as [i [g [x [Hc [Hx _]]]]].
+      destruct (is_typed _ I _ _ _ _ Hc Hx) as [T [S1 S2]].
+      apply (struct_upd p _ o obj_sync (length (d_ops (p_disk p))) g i x I).
+      * rewrite pstep_disk. cbn [fs_step]. rewrite Hl. reflexivity.
+      * pose proof (is_dsync _ I); lia.
+      * rewrite pstep_created; reflexivity.
+      * rewrite pstep_logs; reflexivity.
+      * exact Hc.
+      * exact Hx.
+      * unfold obj_sync; cbn [o_recs o_synced]. split; [|split; [lia|]].
+        -- destruct g; exact T.
+        -- intros _. apply nth_error_Some. unfold created_at in Hc; congruence.
+      * intros n bs Hin. rewrite pstep_logs in Hin.
+        destruct (fname_eq_dec g (FLog n)) as [->|Hne]; [right|left; split; assumption].
+        split; [reflexivity|]. unfold obj_sync; cbn [o_recs]. exact (is_logs_recs _ I _ _ _ _ _ Hin Hc Hx).
+    + apply (struct_same p _ (d_dsync (p_disk p)) I).
+      * rewrite pstep_disk. cbn [fs_step]. rewrite Hl. apply disk_eta.
+      * pose proof (is_dsync _ I); lia.
+      * rewrite pstep_logs; reflexivity.
+      * rewrite pstep_created; reflexivity.
+  - apply (struct_same p _ (length (d_ops (p_disk p))) I).
+    + rewrite pstep_disk. reflexivity.
+    + pose proof (is_dsync _ I); lia.
+    + rewrite pstep_logs; reflexivity.
+    + rewrite pstep_created; reflexivity.
+  - (* rename *)
+    cbn [chk_R0] in H0. destruct a; try discriminate. destruct b; try discriminate.
+    destruct (ns_lookup (p_disk p) (FTmp n)) as [o|] eqn:Hl.
+    + apply (struct_dirop p _ (DRename (FTmp n) FCurrent) I).
+      * rewrite pstep_disk. cbn [fs_step]. rewrite Hl. reflexivity.
+      * rewrite pstep_logs; reflexivity.
+      * rewrite pstep_created; reflexivity.
+      * split; [exists n; reflexivity|reflexivity].
+    + apply (struct_same p _ (d_dsync (p_disk p)) I).
+      * rewrite pstep_disk. cbn [fs_step]. rewrite Hl. apply disk_eta.
+      * pose proof (is_dsync _ I); lia.
+      * rewrite pstep_logs; reflexivity.
+      * rewrite pstep_created; reflexivity.
+  - (* unlink *)
+    cbn [chk_R0] in H0. apply andb_true_iff in H0. destruct H0 as [Hf Hb].
+    apply negb_true_iff, fname_eqb_neq in Hf.
+    destruct (ns_lookup (p_disk p) f) as [o|] eqn:Hl; [|discriminate].
+    apply (struct_dirop p _ (DUnlink f) I).
+    + rewrite pstep_disk. cbn [fs_step]. rewrite Hl. reflexivity.
+    + rewrite pstep_logs; reflexivity.
+    + rewrite pstep_created; reflexivity.
+    + exact Hf.
+  - apply (struct_same p _ (d_dsync (p_disk p)) I).
+    + rewrite pstep_disk. cbn [fs_step]. apply disk_eta.
+    + pose proof (is_dsync _ I); lia.
+    + rewrite pstep_logs; reflexivity.
+    + rewrite pstep_created; reflexivity.
+  - apply (struct_same p _ (d_dsync (p_disk p)) I).
+    + rewrite pstep_disk. cbn [fs_step]. apply disk_eta.
+    + pose proof (is_dsync _ I); lia.
+    + rewrite pstep_logs; reflexivity.
+    + rewrite pstep_created; reflexivity.
+Qed.
+
